@@ -178,7 +178,8 @@ def _job_recv(a, env):
     viol = []
     persig = {}
     evals = 0
-    sizes = sorted(set(s for s in (L - 1, L, L + 1, 10 * L, 1 << 32) if s >= 0))
+    # (2**63 - 1 is the largest length a frame header can legally declare)
+    sizes = sorted(set(s for s in (L - 1, L, L + 1, 10 * L, 1 << 32, (1 << 63) - 1) if s >= 0))
     if a.get("compress"):
         sizes = [s for s in (L - 10, 10 * L) if s >= 6]
     samples = []
